@@ -169,6 +169,10 @@ def check(ctx: Ctx):
     ctx.check(okt, "R-EXCLUSIVE", "MGM2: tie list = neighbours with the same best gain + self, sorted", hg2, tl[0] if tl else hg2.node, "")
     # committed: go decision
     G.check_go_decision(ctx, hg2, "R-PAIR")
+    G.check_go_order(ctx, hg2, "R-PAIR")
+    n_es = G.check_enter_state_last(ctx, [m_ for m_ in repo.cls(MGM2, "Mgm2Computation").methods.values()], "R-PAIR")
+    if n_es < 8:
+        raise AnalysisError(f"MGM2: only {n_es} paths entering a state found (8 confirmed by reading)")
     G.check_offer_slots(ctx, repo, "R-PAIR")
     ffg2 = FuncFacts(go2.node)
     mv = [c for c in walk_no_nested(go2.node) if isinstance(c, ast.Call) and is_self_attr(c.func, "value_selection")]
@@ -255,6 +259,10 @@ def check(ctx: Ctx):
 _M = "pydcop/algorithms/mgm.py"
 _M2 = "pydcop/algorithms/mgm2.py"
 VARIANTS = [
+    ("mgm2_go_decision_stored_after_entering_go_state", _M2, ["                self._can_move = True\n                self.post_msg(self._partner.name, Mgm2GoMessage(True))\n", "                self._can_move = False\n                self.post_msg(self._partner.name, Mgm2GoMessage(False))\n            self._enter_state(\"go?\")\n"],
+     ["                go = True\n", "                go = False\n            self.post_msg(self._partner.name, Mgm2GoMessage(go))\n            self._enter_state(\"go?\")\n            self._can_move = go\n"], "break", "R-PAIR"),
+    ("n_mgm2_go_decision_named", _M2, ["                self._can_move = True\n                self.post_msg(self._partner.name, Mgm2GoMessage(True))\n", "                self._can_move = False\n                self.post_msg(self._partner.name, Mgm2GoMessage(False))\n            self._enter_state(\"go?\")\n"],
+     ["                go = True\n", "                go = False\n            self._can_move = go\n            self.post_msg(self._partner.name, Mgm2GoMessage(go))\n            self._enter_state(\"go?\")\n"], "neutral"),
     ("mgm2_accepted_offer_unpacked_in_offerer_order", _M2, "                val_p, self._potential_value, partner_name = random.choice(best_offers)", "                self._potential_value, val_p, partner_name = random.choice(best_offers)", "break", "R-PAIR"),
     ("mgm_random_tiebreak_enabled_with_private_number", _M, "        if self.break_mode == random:", "        if self.break_mode == \"random\":", "break", "R-EXCLUSIVE"),
     ("n_mgm_random_tiebreak_enabled_and_repaired", _M, ["        if self.break_mode == random:", "                + [(self.random_nb, self.name)]"], ["        if self.break_mode == \"random\":", "                + [(self.__random__, self.name)]"], "neutral"),
